@@ -8,6 +8,8 @@ def _classify(op, a, b):
         return ("part-not-wellformed-xml", b)
     if op.startswith("c02 bridge"):
         return ("cell-bridge-differs", b[:400])
+    if op.startswith("c02 sheetbridge"):
+        return ("sheet-bridge-differs", b[:600])
     m = re.match(r"errs=(\d+);(.*?);view=(.*)$", b, re.S)
     if not m:
         return ("independent-reader-differs", b[:300])
@@ -38,7 +40,7 @@ def _classify(op, a, b):
     return ("view-differs", "")
 
 PROP = {
-    "thm": ["Umya.Thm.C02", "Umya.Thm.C02Bytes"],
+    "thm": ["Umya.Thm.C02", "Umya.Thm.C02Bytes", "Umya.Thm.C02Sheet", "Umya.Thm.C02Book"],
     "harness": "c02",
     "level": "translation_validation",
     "stateful": True,
@@ -66,9 +68,27 @@ PROP = {
                   "empty number): C02_cell_decodes_plain_partial / C02_cell_kind_partial (hypothesis plainKind) with witnesses C02_cell_uncached_formula_fails, C02_cell_lazy_fails. "
                   "Tie of the cell clause to the code on every run (request `c02 bridge`): (a) every <c> parsed by the independent XML reader from the real sheet parts is tree-equal to "
                   "cellNode of the fact a non-unescaping scanner read from the same bytes; (b) the shared strings read from the real part equal those of the rendered <si> facts; "
-                  "(c) for generated workbooks the writer model run on the in-memory cells yields exactly these cell facts and <si> texts; (d) decodeCell on the real trees equals fileView of the model cells.",
+                  "(c) for generated workbooks the writer model run on the in-memory cells yields exactly these cell facts and <si> texts; (d) decodeCell on the real trees equals fileView of the model cells. "
+                  "SHEET CLAUSE (new; tree level, Umya/Model/SheetNode.lean = model of writer/xlsx/worksheet.rs + worksheet_rels.rs): for every well-formed sheet (SheetW.WF: row table strictly "
+                  "ascending in 1..1048576, cells strictly ascending by (row, column) with columns in 1..16384, every cell's row in the row table - what C10's Coherent gives, C02_sheet_of_coherent) "
+                  "with any number of rows, cells, merged ranges and hyperlinks, the independent decodeSheet applied to a package holding the rendered <worksheet> tree (the <row> wrappers of the "
+                  "peek-and-consume row loop, <mergeCells>, <hyperlinks> with the r:id counter, the children in the order written) and the rendered relationships tree (its own counter over the "
+                  "same link list) returns exactly the views of the non-blank cells in order, the merged ranges, every hyperlink on its own cell with its own target (through the relationships "
+                  "part for external links, location for internal ones) and tooltip, the row table, and an EMPTY list of diagnostics - rows/cells ascending and in range, style and shared-string "
+                  "indexes inside their tables, CT_Worksheet child order, every r:id resolving (C02_sheet_decodes, C02_sheet_decodes_sst, C02_merges_decode, C02_hyperlinks_decode, "
+                  "C02_hyperlink_walk_decodes, C02_sheet_rels_decode, total writer C02_sheet_written; C02_unordered_rels_fails documents the repaired pairing defect on the decoder's own functions). "
+                  "Children of <worksheet> the model does not render and relationships after the hyperlink ones are opaque parameters under explicit Boolean hypotheses (Frame.ok, colsOk, dxfOk, ridsOk). "
+                  "WORKBOOK CLAUSE (new, partial): C02_book_decodes_partial - decode on a package holding the rendered workbook.xml (<sheets>, <definedNames>) and workbook.xml.rels trees returns the "
+                  "sheet list in order (name, visibility, the body decoded from the part the r:id resolves to) and the defined names, with no diagnostic about sheet names, sheet ids, unresolved r:ids, "
+                  "sheet bodies or name scopes, for any number of sheets and names with case-insensitively distinct titles; C02_sheet_names_case_fails is the witness of the defect repaired by fix 95713cc. "
+                  "Tie of both to the code on every run (request `c02 sheetbridge`, generated workbooks incl. a dedicated generator): the rendering of the in-memory rows / cells / merged ranges / "
+                  "hyperlinks / sheet list / defined names by the MODEL is compared, tree-equal up to attribute order, with what the independent XML reader parsed from the real sheetN.xml "
+                  "(sheetData with every row and c, mergeCells, hyperlinks, phoneticPr, child-name sequence), sheetN.xml.rels (hyperlink relationships), workbook.xml (sheets, definedNames, child order), "
+                  "workbook.xml.rels (worksheet relationships) and [Content_Types].xml (worksheet overrides); the theorems' hypotheses are evaluated on the real frame and, where they hold (all 560 sheets "
+                  "of a quick run), the conclusion of C02_sheet_decodes is checked on the real package.",
     "level_note": "The package-level claim as a whole is validated per written file, not proved for all workbooks: there is no Lean model of the whole writer (parts list, "
-                  "relationships, content types, workbook.xml, the <row> wrapper, rels-based features). The cell theorems are about the fact-level model of the cell writer "
+                  "content types, package-level relationships, the opaque children of <worksheet>/<workbook>, styles). The sheet and workbook theorems are about element TREES "
+                  "(Package parts carry the parsed tree); the path algebra of OPC (resolveTarget, relsNameOf on String) enters as hypotheses / look-ups, evaluated on every real package. The cell theorems are about the fact-level model of the cell writer "
                   "(element, attributes, raw text content) and a rendering of those facts as element trees; the tag syntax quick-xml emits is not modelled at character level, "
                   "so the step bytes -> tree is checked per file by the `c02 bridge` request (tree equality of every parsed <c> with the rendered fact), not proved. "
                   "Trusted: the Lean reader (spec, ~600 lines), the rendering Umya/Model/CellNode.lean (~150 lines, checked against the real parse on every run), the zip crate, "
@@ -81,20 +101,31 @@ PROP = {
                         "C02_sheet_cells_decode", "C02_book_cells_decode", "C02_book_cell_decodes", "C02_book_written",
                         "C02_chardata_lexed", "C02_cell_position",
                         "C02_writer_matches_source", "C02_bytes_start_tag", "C02_bytes_end_tag", "C02_bytes_decl", "C02_bytes_parse", "C02_bytes_normal_form",
-                        "C02_bytes_parse_tree", "C02_bytes_parse_tree_norm", "C02_cell_bytes_decode", "C02_cell_bytes_decode_default", "C02_si_bytes_decode"],
+                        "C02_bytes_parse_tree", "C02_bytes_parse_tree_norm", "C02_cell_bytes_decode", "C02_cell_bytes_decode_default", "C02_si_bytes_decode",
+                        "C02_sheet_decodes", "C02_sheet_decodes_sst", "C02_merges_decode", "C02_hyperlinks_decode", "C02_hyperlink_walk_decodes",
+                        "C02_sheet_rels_decode", "C02_unordered_rels_fails", "C02_sheet_written", "C02_sheet_of_coherent",
+                        "C02_book_decodes_partial", "C02_sheet_names_case_fails"],
     "rule": "case = one workbook (generated from a per-case seed, or a corpus file re-saved) written with the standard or the light writer; every part is one request; "
             "the `decode` request compares violations (must be none) and the decoded view; the final `bridge` request carries the cell / <si> facts scanned from the real parts "
             "and (generated workbooks) the in-memory cells, and must answer ok. non-trivial = every part / decode / bridge request; distinct = distinct request line",
     "trusted_base": TB_COMMON + ["independent reader Umya/Spec/XmlLex.lean + Umya/Spec/Sml.lean (executed, not verified against the standards' text)", "zip crate",
                                   "rendering of written facts as element trees Umya/Model/CellNode.lean (checked against the real parse by `c02 bridge` on every run)",
                                   "the writer model Umya/Model/CellXml.lean is the code's (C01's correspondence stream; re-checked on C02's workbooks by `c02 bridge` (c))",
-                                  "harness/src/c01.rs::package_facts (non-unescaping scanner of the real parts)"],
+                                  "harness/src/c01.rs::package_facts (non-unescaping scanner of the real parts)",
+                                  "tree-level writer models Umya/Model/SheetNode.lean, Umya/Model/WorkbookNode.lean (checked against the real parse by `c02 sheetbridge` on every run; "
+                                  "below the comparison: cellXfs indexes, opaque frame, presence of state=visible)"],
     "assumptions": ["C02_bytes_parse: element and attribute names are XML Names, attribute names distinct per element, attribute values and texts consist of XML 1.0 Chars "
                     "(decidable WF; evaluated by the driver on every claimed part)"],
     "partial_clauses": ["whole-package well-formedness and decode equality are validated per file, not proved for all workbooks; proved for all inputs: the cell clause at the level of the "
                         "writer model's facts (C02_cell_decodes … C02_book_cell_decodes), the escaping channels, sheetData order, rId pairing",
                         "cells: shared / array formulas, inline strings (<is>), cm/vm/ph attributes are outside the modelled fragment (counted as outside-fragment by the bridge; validated per file by decode)",
-                        "cells: the <row> wrapper, fillRefs / expandShared of decodeSheet and the style table behind the s index are not part of the cell theorems (validated per file)",
+                        "sheet: proved at tree level for the modelled skeleton (sheetData with rows, mergeCells, phoneticPr, hyperlinks + relationships part); the other children of <worksheet> "
+                        "(sheetPr, dimension, sheetViews, sheetFormatPr, cols, sheetProtection, autoFilter, conditionalFormatting, dataValidations, printOptions ... extLst) are opaque under Frame.ok / colsOk / "
+                        "dxfOk / ridsOk (evaluated per file); sheets with tableParts, shared/array formulas or cells outside the CellX fragment are outside the theorem (validated per file); row attributes "
+                        "thickBot, customHeight, x14ac:dyDescent and the style table behind the s index are not modelled",
+                        "workbook: C02_book_decodes_partial leaves the package-level diagnostics (content types for every part, well-formedness of every part, unique relationship ids, relationship targets exist) "
+                        "and activeTab per file; OPC path resolution (String operations) is a hypothesis checked per file; content types are only tied (worksheet overrides), not proved",
+                        "sheet titles: Worksheet::set_name does not check for duplicates (known finding C02-set-name-duplicate-title); new_sheet compares case-insensitively since the fix",
                         "tag-level serialisation (characters -> element tree) is PROVED for the model Umya/Model/XmlWrite.lean of writer/driver.rs + quick-xml's Writer (C02_bytes_parse, any tree); "
                         "that the real parts are renderings of that model is checked per written part (`c02 part … w` -> render=same, character for character) and, for the structure of the six helper "
                         "functions, by the translator (C02_writer_matches_source); quick-xml's write_event / push_attribute themselves are modelled from their source, not translated; "
